@@ -35,6 +35,13 @@ def make_op(spec):
     if k == "g1":
         return G1[spec[1]](register=spec[3], reg_type=spec[2])
     if k == "w":
+        if len(spec) > 4 and spec[4] in ("noise_after", "noise_before"):
+            # a wrapper carrying ONE noise object for the whole wrapper (unwrap() then adds a noise-carrying Identity)
+            import graphiq.noise.noise_models as nm
+
+            noise = nm.DepolarizingNoise(0.1)
+            noise.noise_parameters["After gate"] = spec[4] == "noise_after"
+            return ops.OneQubitGateWrapper([G1[n] for n in spec[1]], register=spec[3], reg_type=spec[2], noise=noise)
         return ops.OneQubitGateWrapper([G1[n] for n in spec[1]], register=spec[3], reg_type=spec[2])
     if k == "g2":
         return G2[spec[1]](control=spec[3], control_type=spec[2], target=spec[5], target_type=spec[4])
@@ -51,7 +58,11 @@ def spec_of(op):
     if isinstance(op, ops.InputOutputOperationBase):
         return None
     if t is ops.OneQubitGateWrapper:
-        return ["w", [G1_INV[c] for c in op.operations], op.reg_type, op.register]
+        base = ["w", [G1_INV[c] for c in op.operations], op.reg_type, op.register]
+        nz = op.noise
+        if not isinstance(nz, list) and type(nz).__name__ != "NoNoise" and isinstance(getattr(nz, "noise_parameters", None), dict):
+            base.append("noise_after" if nz.noise_parameters.get("After gate", True) else "noise_before")
+        return base
     if t in G1_INV:
         return ["g1", G1_INV[t], op.reg_type, op.register]
     if t in G2_INV:
